@@ -19,7 +19,14 @@ PAIR_LIMIT = 14        # pairwise (monotonicity / addition) axioms only among th
 
 
 def _canon(term):
-    return z3.simplify(term, som=True, flat=True)
+    """sum-of-monomials normal form; z3's simplifier needs a second pass to merge numeric factors."""
+    t = z3.simplify(term, som=True, flat=True)
+    for _ in range(3):
+        t2 = z3.simplify(t, som=True, flat=True)
+        if t2.eq(t):
+            break
+        t = t2
+    return t
 
 
 def key_of(x: R):
@@ -49,7 +56,10 @@ def _entries(fn):
 
 
 def _lookup(fn, x):
-    k = (fn,) + key_of(x)[:3]
+    full = key_of(x)
+    k = (fn,) + full[:3]
+    # keep the canonical terms alive: z3 AST ids are only stable while the term is referenced
+    ctx().registry.setdefault('_keepalive', []).append(full)
     return k, _reg().get(k)
 
 
